@@ -146,6 +146,15 @@ pub fn build_app(cfg_json: &Value) -> Result<CompassApp, String> {
 
 /// a run's configuration with the case's extra per-run keys merged in (`params.run_overrides[i]`: sections of the
 /// application configuration offered as per-run overrides; the unchanged tree reads three keys and ignores the rest)
+/// the parallelism a run() call asks for in its own configuration: `params.run_parallelism_per_run[i]` (a number, or
+/// null for "not given") where the case has one, else the case-wide `run_parallelism`
+fn run_par(case: &Case, run_index: usize) -> Option<usize> {
+    match case.params.get("run_parallelism_per_run").and_then(|a| a.get(run_index)) {
+        Some(v) => v.as_u64().map(|x| x as usize),
+        None => case.run_parallelism,
+    }
+}
+
 fn with_run_overrides(case: &Case, run_index: usize, cfg: Option<Value>) -> Option<Value> {
     match case.params.get("run_overrides").and_then(|o| o.get(run_index)).and_then(|o| o.as_object()) {
         Some(extra) if !extra.is_empty() => {
@@ -315,8 +324,8 @@ pub fn execute(case: &Case, opts: ExecOpts, mut instr: Box<dyn Instrument>, fata
                     // two caller threads share the application (its services, caches, plugins): each hands one
                     // batch to run() at the same time
                     instr.before_run(0);
-                    let cfg0 = with_run_overrides(&case, 0, case.world.run_config(case.run_parallelism, 0));
-                    let cfg1 = with_run_overrides(&case, 1, case.world.run_config(case.run_parallelism, 1));
+                    let cfg0 = with_run_overrides(&case, 0, case.world.run_config(run_par(&case, 0), 0));
+                    let cfg1 = with_run_overrides(&case, 1, case.world.run_config(run_par(&case, 1), 1));
                     let (b0, b1) = (case.batches[0].clone(), case.batches[1].clone());
                     let app_ref = &app;
                     let pool_ref = &pool;
@@ -341,7 +350,7 @@ pub fn execute(case: &Case, opts: ExecOpts, mut instr: Box<dyn Instrument>, fata
                     if two_callers {
                         break;
                     }
-                    let run_cfg = with_run_overrides(&case, bi, case.world.run_config(case.run_parallelism, bi));
+                    let run_cfg = with_run_overrides(&case, bi, case.world.run_config(run_par(&case, bi), bi));
                     // the response file is rotated away, rewritten in place (same content, another file) or deleted
                     // between two run() calls: the next call names it again and must end up in the file of that name
                     if let (true, Some(op)) = (bi > 0, case.params.get("rotate").and_then(|r| r.get(bi.saturating_sub(1))).and_then(|x| x.as_u64())) {
